@@ -449,7 +449,8 @@ func c16StopOrder(p *Prog, r *Report) {
 		return
 	}
 	info := fi.Pkg.TypesInfo
-	f := p.FlatOf(fi)
+	// helpers of Stop and closures run by a locking helper are spliced in
+	f := p.FlatInl(fi)
 	find := func(pred func(c *ast.CallExpr) bool) []int {
 		return f.Match(func(n *GNode) bool {
 			if _, d := n.Ast.(*ast.DeferStmt); d {
